@@ -32,6 +32,8 @@ ASSUMPTIONS = [
 
 
 class CrashFile(object):
+    sched = None  # E2: a thread switch may follow each (atomic) write()
+
     def __init__(self):
         self.events = []
 
@@ -40,6 +42,8 @@ class CrashFile(object):
             raise TypeError("binary")
         if data:
             self.events.append(("write", data))
+            if self.sched is not None:
+                self.sched.yield_point("after file.write")
 
     def writelines(self, lines):
         # io.IOBase.writelines: one write() call per item, nothing atomic about it
@@ -179,6 +183,7 @@ def body_E2(ctx):
     f = CrashFile()
     dest = FileDestination(file=f)
     sched = Sched(ctx, watch={_output.__file__: {"__call__"}}, preemptions=sh.get("P", 3))
+    f.sched = sched
     nmsg = sh.get("msgs", 1)
 
     def mk(t):
